@@ -265,6 +265,12 @@ func (c *cors) handle(node types.Node, wh http.Header, r *http.Request) {
 		r.URL.Path != "*" // OPTIONS * 不算预检，也不存在其它的请求方法处理方式。
 
 	if preflight {
+		// 空路径（比如 OPTIONS http://example.com）由根节点处理，根节点的请求方法是整个路由的合集，
+		// 并不表示该路径支持这些方法。
+		if r.URL.Path == "" {
+			return
+		}
+
 		// Access-Control-Allow-Methods
 		if slices.Index(node.Methods(), reqMethod) < 0 {
 			return
